@@ -5,6 +5,13 @@
   Conventions: a game `g` is well formed for the action counts `nums` (`Game.WF g nums`) when
   player `i`'s array has shape `nums[i:] + nums[:i]` and as many cells as that shape says.
   A profile is in bounds when `inBounds nums prof`.
+
+  Added in the last growth round (end of file): `best_responses_nonempty`, `best_response_smallest`,
+  `is_nash_is_definition` (pure and mixed profiles), `delete_actions_views` (list of actions),
+  `poke_views`, `profile_array_after_set`, `dominated_never_best_response`, `dominated_not_nash`,
+  `mixed_dominated_never_best_response`.
+  Not proved (outside the model, see QEModel/C14.lean): the decimal text of GAM numbers, `lstsq`
+  in `PolymatrixGame.from_nf`, the LP solver behind `is_dominated` (a certificate is checked instead).
 -/
 import QEProofs.Lemmas.C14Expect
 import QEProofs.Lemmas.C14Rot
@@ -1401,5 +1408,613 @@ theorem resolveTol_explicit (t : Rat) : resolveTol (some t) = t := rfl
 theorem resolveTol_default : resolveTol none = playerTol ∧ 0 < playerTol := ⟨rfl, by decide +kernel⟩
 
 example : resolveTol (some 0) = 0 ∧ resolveTol (some 0) ≠ resolveTol none := by decide +kernel
+
+/-! ## T1 best_response: never empty, and 'smallest' is the least best response -/
+
+section brsmall
+variable {K : Type} [Field K] [LinearOrder K] [IsStrictOrderedRing K]
+
+omit [IsStrictOrderedRing K] in
+/-- `np.where(...)[0]` lists the best responses in increasing order -/
+theorem best_responses_increasing (v : List K) (tol : K) :
+    (bestResponses v tol).Pairwise (· < ·) := by
+  unfold bestResponses
+  exact List.Pairwise.filter _ List.pairwise_lt_range
+
+/-- **best_response never comes back empty-handed**: for a non-empty payoff vector and `tol ≥ 0`
+    the set of best responses is non-empty (a maximiser is in it). -/
+theorem best_responses_nonempty (v : List K) (tol : K) (hv : v ≠ []) (htol : 0 ≤ tol) :
+    bestResponses v tol ≠ [] := by
+  obtain ⟨hm, _⟩ := maxList_spec v hv
+  obtain ⟨b, hb, e⟩ := List.mem_iff_getElem.mp hm
+  have : b ∈ bestResponses v tol := by
+    rw [best_response_spec]
+    refine ⟨hb, ?_⟩
+    intro c hc
+    have h1 := (maxList_spec v hv).2 _ (getD_mem v c hc)
+    have h2 : v.getD b 0 = maxList v := by
+      rw [List.getD_eq_getElem?_getD, List.getElem?_eq_getElem hb]; exact e
+    rw [h2]; linarith
+  intro h; rw [h] at this; simp at this
+
+/-- **tie_breaking='smallest'** (the first element of the list of best responses) is the least
+    index among the actions whose payoff is within `tol` of every action's payoff — not merely a
+    maximiser. -/
+theorem best_response_smallest (v : List K) (tol : K) (a : Nat) :
+    (bestResponses v tol).head? = some a ↔
+      (a < v.length ∧ ∀ b, b < v.length → v.getD b 0 - tol ≤ v.getD a 0) ∧
+      ∀ c, (c < v.length ∧ ∀ b, b < v.length → v.getD b 0 - tol ≤ v.getD c 0) → a ≤ c := by
+  have hs := best_responses_increasing v tol
+  constructor
+  · intro h
+    have hmem : a ∈ bestResponses v tol := List.mem_of_mem_head? h
+    refine ⟨(best_response_spec v tol a).mp hmem, ?_⟩
+    intro c hc
+    have hcm : c ∈ bestResponses v tol := (best_response_spec v tol c).mpr hc
+    cases hl : bestResponses v tol with
+    | nil => rw [hl] at hmem; simp at hmem
+    | cons x xs =>
+      rw [hl] at h hcm hs
+      simp only [List.head?_cons, Option.some.injEq] at h
+      subst h
+      rcases List.mem_cons.mp hcm with rfl | hc'
+      · exact le_refl _
+      · exact le_of_lt ((List.pairwise_cons.mp hs).1 c hc')
+  · rintro ⟨ha, hmin⟩
+    have hmem : a ∈ bestResponses v tol := (best_response_spec v tol a).mpr ha
+    cases hl : bestResponses v tol with
+    | nil => rw [hl] at hmem; simp at hmem
+    | cons x xs =>
+      rw [hl] at hmem hs
+      simp only [List.head?_cons, Option.some.injEq]
+      have hx : x ∈ bestResponses v tol := by rw [hl]; exact List.mem_cons_self
+      have h1 := hmin x ((best_response_spec v tol x).mp hx)
+      rcases List.mem_cons.mp hmem with rfl | ha'
+      · rfl
+      · have := (List.pairwise_cons.mp hs).1 a ha'
+        omega
+
+example : (bestResponses ([3, 5, 4, 5] : List ℚ) 1).head? = some 1 := by decide +kernel
+
+end brsmall
+
+/-! ## T1 is_nash is its definition (pure and mixed profiles, every N) -/
+
+section nashdef
+variable {K : Type} [Field K] [LinearOrder K] [IsStrictOrderedRing K]
+
+/-- player `i`'s expected payoff from the pure own action `b` when the others play their parts
+    of `prof` (pure or mixed, independently): the iterated expectation over the opponents in
+    `i`'s cyclic order `i+1, …, N-1, 0, …, i-1` of `players[i].payoff_array[b, ·]` -/
+def expPayoff (g : Game K) (nums : List Nat) (prof : List (Act K)) (i b : Nat) : K :=
+  expect (nums.drop (i + 1) ++ nums.take i) (prof.drop (i + 1) ++ prof.take i)
+    (fun r => (g.player i).get (b :: r))
+
+/-- value of player `i`'s own part of the profile: the expected payoff of the pure action, or
+    the mixture `Σ_c x_c · U_i(c)` (summed in the order of `np.dot`) -/
+def ownExpPayoff (g : Game K) (nums : List Nat) (prof : List (Act K)) (i : Nat) : K :=
+  match prof[i]? with
+  | some (.pure a) => expPayoff g nums prof i a
+  | some (.mixed x) =>
+    (List.range (nums.getD i 0)).foldl (fun acc c => acc + x.getD c 0 * expPayoff g nums prof i c) 0
+  | none => 0
+
+/-- **is_nash is its definition, for pure and mixed profiles and every number of players.**
+    On a well-formed game whose players all have at least one action, for a profile whose every
+    part fits (pure actions in range, mixed actions of the right length): `is_nash(prof, tol)` is
+    true exactly when, for every player `i` and every own pure action `b`, the expected payoff of
+    `b` against the others' parts exceeds the expected payoff of `i`'s own part by at most `tol`. -/
+theorem is_nash_is_definition (g : Game K) (nums : List Nat) (prof : List (Act K)) (tol : K)
+    (hg : g.WF nums) (hpos : prod nums ≠ 0) (hlen : prof.length = nums.length)
+    (hopp : ∀ i, i < nums.length →
+      actsOk (nums.drop (i + 1) ++ nums.take i) (prof.drop (i + 1) ++ prof.take i))
+    (hown : ∀ i a, i < nums.length → prof[i]? = some (.pure a) → a < nums.getD i 0) :
+    g.isNash prof tol = true ↔
+      ∀ i, i < nums.length → ∀ b, b < nums.getD i 0 →
+        expPayoff g nums prof i b - tol ≤ ownExpPayoff g nums prof i := by
+  have hgN : g.N = nums.length := hg.len
+  have hdata : ∀ i, i < nums.length →
+      (payoffVector (g.player i) (Game.oppsOf g.N i prof)).data.length = nums.getD i 0 ∧
+      ∀ b, b < nums.getD i 0 →
+        (payoffVector (g.player i) (Game.oppsOf g.N i prof)).data.getD b 0 = expPayoff g nums prof i b := by
+    intro i hi
+    have hshape : (g.player i).shape = nums.getD i 0 :: (nums.drop (i + 1) ++ nums.take i) := by
+      rw [hg.shape i hi]; exact rotL_cons i nums 0 hi
+    have ho : Game.oppsOf g.N i prof = prof.drop (i + 1) ++ prof.take i := by
+      have := oppsOf_eq prof i (by omega)
+      rwa [hlen, ← hgN] at this
+    rw [ho]
+    exact payoffVector_data (g.player i) _ _ _ hshape (hopp i hi) (hg.size i hi)
+  have hnpos : ∀ i, i < nums.length → 0 < nums.getD i 0 := by
+    intro i hi
+    have hm : nums.getD i 0 ∈ nums := by
+      rw [List.getD_eq_getElem?_getD, List.getElem?_eq_getElem hi]; exact List.getElem_mem hi
+    have := (prod_ne_zero_iff nums).mp hpos _ hm
+    omega
+  have hown' : ∀ i, i < nums.length →
+      ownValue (payoffVector (g.player i) (Game.oppsOf g.N i prof)).data
+        (match prof[i]? with | some a => a | none => .pure 0) = ownExpPayoff g nums prof i := by
+    intro i hi
+    obtain ⟨h1, h2⟩ := hdata i hi
+    have hsome : ∃ a, prof[i]? = some a := ⟨prof[i]'(by omega), List.getElem?_eq_getElem (by omega)⟩
+    obtain ⟨a, ha⟩ := hsome
+    unfold ownExpPayoff
+    rw [ha]
+    cases a with
+    | pure a =>
+      simp only [ownValue]
+      exact h2 a (hown i a hi ha)
+    | mixed x =>
+      simp only [ownValue, dot]
+      rw [h1]
+      apply foldl_congr_range
+      intro acc c hc
+      rw [h2 c hc]
+  rw [is_nash_spec g prof tol (by
+    intro i hi e
+    have := (hdata i (by omega)).1
+    rw [e, List.length_nil] at this
+    have := hnpos i (by omega)
+    omega)]
+  rw [hgN] at hdata hown' ⊢
+  constructor
+  · intro h i hi b hb
+    have := h i hi b (by rw [(hdata i hi).1]; exact hb)
+    rw [(hdata i hi).2 b hb] at this
+    exact le_of_le_of_eq this (hown' i hi)
+  · intro h i hi b hb
+    rw [(hdata i hi).1] at hb
+    rw [(hdata i hi).2 b hb]
+    exact le_of_le_of_eq (h i hi b hb) (hown' i hi).symm
+
+/-- matching pennies (over ℚ for the hypotheses, over ℤ with weights `[1, 1]` for evaluation by the kernel) -/
+def mpGame : Game ℚ := ⟨[⟨[2, 2], [1, -1, -1, 1]⟩, ⟨[2, 2], [-1, 1, 1, -1]⟩]⟩
+def mpGameZ : Game Int := ⟨[⟨[2, 2], [1, -1, -1, 1]⟩, ⟨[2, 2], [-1, 1, 1, -1]⟩]⟩
+
+example : mpGameZ.isNash [.mixed [1, 1], .mixed [1, 1]] 0 = true ∧
+    mpGameZ.isNash [.pure 0, .mixed [1, 1]] 0 = false ∧
+    mpGameZ.isNash [.pure 0, .pure 0] 0 = false := by decide
+/-- the hypotheses of `is_nash_is_definition` hold for the uniform mixed profile of matching pennies -/
+example : mpGame.WF [2, 2] ∧ prod [2, 2] ≠ 0 ∧
+    (∀ i, i < [2, 2].length → actsOk (α := ℚ) ([2, 2].drop (i + 1) ++ [2, 2].take i)
+      ([Act.mixed [1/2, 1/2], Act.mixed [1/2, 1/2]].drop (i + 1) ++ [Act.mixed [1/2, 1/2], Act.mixed [1/2, 1/2]].take i)) := by
+  refine ⟨⟨rfl, by decide, by decide⟩, by decide, ?_⟩
+  intro i hi
+  have : i = 0 ∨ i = 1 := by simp at hi; omega
+  rcases this with rfl | rfl <;> exact ⟨rfl, trivial⟩
+
+end nashdef
+
+/-! ## T1 delete_action with a list of actions: the surviving cells, in every player's array -/
+
+
+/-- the actions of an axis of size `n` that survive the deletion of the set `as`, in order -/
+def survivors (n : Nat) (as : List Nat) : List Nat := (List.range n).filter fun k => !as.contains k
+
+theorem deleteMany_get (A : Arr α) (ax : Nat) (as : List Nat) (idx : List Nat)
+    (hb : inBounds (A.shape.set ax (survivors (A.shape.getD ax 0) as).length) idx = true) :
+    (A.deleteMany ax as).get idx =
+      A.get (idx.set ax ((survivors (A.shape.getD ax 0) as).getD (idx.getD ax 0) 0)) := by
+  unfold Arr.deleteMany
+  exact get_tab _ _ _ hb
+
+theorem rotL_setAt (p i : Nat) (prof : List Nat) (f : Nat → Nat) (hp : p < prof.length) (hi : i < prof.length) :
+    rotL i (prof.set p (f (prof.getD p 0))) =
+      (rotL i prof).set (delAxis p prof.length i) (f ((rotL i prof).getD (delAxis p prof.length i) 0)) := by
+  rw [rotL_set prof p i _ hp hi]
+  have : (rotL i prof).getD (delAxis p prof.length i) 0 = prof.getD p 0 := by
+    rw [getD_rotL i prof 0 _ (by omega) (delAxis_lt p _ i hp hi), delAxis_mod p _ i hp hi]
+  rw [this]
+
+/-- **delete_action with a list of actions.** Deleting the set `as` of player `p`'s actions (all in
+    range, at least one action surviving) succeeds, yields a well-formed game in which `p` has
+    exactly the surviving actions, and in EVERY player's array exactly the cells of the surviving
+    profiles remain, in order: the new game at `prof` reads the old game at `prof` with `prof[p]`
+    replaced by the `prof[p]`-th surviving action. (All `N`, all `p`, duplicates in `as` allowed.) -/
+theorem delete_actions_views (g : Game α) (nums : List Nat) (p : Nat) (as : List Nat) (hg : g.WF nums)
+    (hp : p < nums.length) (has : ∀ a ∈ as, a < nums.getD p 0)
+    (hkeep : 0 < (survivors (nums.getD p 0) as).length) (hpos : prod nums ≠ 0) :
+    ∃ g', g.deleteActions (p : Int) as = .ok g' ∧
+      g'.WF (nums.set p (survivors (nums.getD p 0) as).length) ∧
+      ∀ prof i, inBounds (nums.set p (survivors (nums.getD p 0) as).length) prof = true → i < nums.length →
+        (g'.getItem prof).getD i 0 =
+          (g.getItem (prof.set p ((survivors (nums.getD p 0) as).getD (prof.getD p 0) 0))).getD i 0 := by
+  have hN : g.N = nums.length := hg.len
+  let K := (survivors (nums.getD p 0) as).length
+  let B : Nat → Arr α := fun i => (g.player i).deleteMany (delAxis p nums.length i) as
+  have hax : ∀ i, i < nums.length → (g.player i).shape.getD (delAxis p nums.length i) 0 = nums.getD p 0 := by
+    intro i hi
+    rw [hg.shape i hi, getD_rotL i nums 0 _ (by omega) (delAxis_lt p _ i hp hi), delAxis_mod p _ i hp hi]
+  have hBshape : ∀ i, i < nums.length → (B i).shape = rotL i (nums.set p K) := by
+    intro i hi
+    show ((g.player i).shape.set _ (survivors ((g.player i).shape.getD _ 0) as).length) = _
+    rw [hax i hi, hg.shape i hi, rotL_set nums p i _ hp hi]
+  have hWF : (Game.mk ((List.range nums.length).map B)).WF (nums.set p K) := by
+    refine ⟨by simp, ?_, ?_⟩
+    · intro i hi
+      have hi' : i < nums.length := by simpa using hi
+      rw [mk_player _ i B nums.length hi' rfl]; exact hBshape i hi'
+    · intro i hi
+      have hi' : i < nums.length := by simpa using hi
+      rw [mk_player _ i B nums.length hi' rfl]; exact tab_size _ _
+  have hmap : (List.range g.N).mapM (fun (i : Nat) =>
+      match Game.normAxis ((p : Int) - (i : Int)) (g.player i).shape.length with
+      | none => Except.error Err.axis
+      | some ax =>
+        if (as.all fun a => decide (a < (g.player i).shape.getD ax 0)) = true then
+          if Game.playerOk ((g.player i).deleteMany ax as) = true then Except.ok ((g.player i).deleteMany ax as)
+          else Except.error Err.value
+        else Except.error Err.index) = .ok ((List.range g.N).map B) := by
+    apply mapM_ok
+    intro i hi
+    have hi' : i < nums.length := by rw [← hN]; simpa using hi
+    have hl : (g.player i).shape.length = nums.length := by rw [hg.shape i hi', length_rotL]
+    have hall : (as.all fun a => decide (a < nums.getD p 0)) = true := by
+      rw [List.all_eq_true]; intro a ha; simpa using has a ha
+    simp only [hl, normAxis_sub p nums.length i hp hi', hax i hi', hall, if_true]
+    have hok : Game.playerOk ((g.player i).deleteMany (delAxis p nums.length i) as) = true := by
+      have hs := hBshape i hi'
+      simp only [Game.playerOk, Bool.and_eq_true, bne_iff_ne, ne_eq]
+      show ¬ (B i).shape.length = 0 ∧ ¬ prod (B i).shape = 0
+      rw [hs, length_rotL, prod_rotL, List.length_set]
+      exact ⟨by omega, prod_set_ne_zero nums p _ hpos (by omega)⟩
+    rw [if_pos hok]
+  refine ⟨⟨(List.range nums.length).map B⟩, ?_, hWF, ?_⟩
+  · unfold Game.deleteActions
+    dsimp only
+    erw [hmap]
+    rw [hN]
+    exact from_players_roundtrip _ _ hWF
+  · intro prof i hb hi
+    have hlen : prof.length = nums.length := by rw [inBounds_length _ _ hb, List.length_set]
+    rw [getItem_getD _ _ _ (by simpa [Game.N] using hi), getItem_getD _ _ _ (by omega),
+      mk_player _ i B nums.length hi rfl]
+    show ((g.player i).deleteMany _ as).get _ = _
+    rw [deleteMany_get _ _ _ _ (by
+      rw [hax i hi, hg.shape i hi, ← rotL_set nums p i _ hp hi]
+      exact inBounds_rotL i _ prof (by simp; omega) hb)]
+    rw [hax i hi]
+    have := rotL_setAt p i prof (fun k => (survivors (nums.getD p 0) as).getD k 0) (by omega) (by omega)
+    rw [hlen] at this
+    rw [this]
+
+example : ∃ g', exGame.deleteActions 1 [2, 0, 2] = .ok g' ∧ g'.getItem [1, 0] = exGame.getItem [1, 1] ∧
+    g'.players.map (·.shape) = [[2, 1], [1, 2]] := ⟨_, rfl, by decide, by decide⟩
+example : survivors 3 [2, 0, 2] = [1] := by decide
+
+
+/-! ## T1 in-place edits and writes, seen through the other views -/
+
+
+/-- **An in-place edit of one player's array, seen through the game.** After the caller writes `v`
+    into player `i`'s array at the cell of profile `prof` (`g.players[i].payoff_array[rot i prof] = v`),
+    `g[prof'][j]` is `v` for `(prof', j) = (prof, i)` and what it was for every other profile and
+    every other player. -/
+theorem poke_views (g : Game α) (nums prof prof' : List Nat) (i j : Nat) (v : α) (hg : g.WF nums)
+    (hp : inBounds nums prof = true) (hp' : inBounds nums prof' = true)
+    (hi : i < nums.length) (hj : j < nums.length) :
+    ((g.pokeItem i (rotL i prof) v).getItem prof').getD j 0 =
+      if j = i ∧ prof' = prof then v else (g.getItem prof').getD j 0 := by
+  have hN : g.N = nums.length := hg.len
+  have hNp : (g.pokeItem i (rotL i prof) v).N = g.N := by simp [Game.pokeItem, Game.N]
+  rw [getItem_getD _ _ _ (by rw [hNp]; omega), getItem_getD _ _ _ (by omega),
+    pokeItem_player g i _ v j (by omega)]
+  by_cases hji : j = i
+  · subst hji
+    rw [if_pos rfl]
+    have hb : inBounds (g.player j).shape (rotL j prof) = true := by
+      rw [hg.shape j hj]; exact inBounds_rotL j nums prof (by omega) hp
+    have hb' : inBounds (g.player j).shape (rotL j prof') = true := by
+      rw [hg.shape j hj]; exact inBounds_rotL j nums prof' (by omega) hp'
+    unfold Arr.get
+    simp only
+    by_cases hpp : prof' = prof
+    · subst hpp
+      rw [if_pos (by simp)]
+      have hlt := flatIndex_lt _ _ hb
+      rw [← hg.size j hj] at hlt
+      rw [List.getD_eq_getElem?_getD, List.getElem?_set_self hlt]
+      rfl
+    · rw [if_neg (fun h => hpp h.2)]
+      have hl := inBounds_length _ _ hp
+      have hl' := inBounds_length _ _ hp'
+      have hk : flatIndex (g.player j).shape (rotL j prof) ≠ flatIndex (g.player j).shape (rotL j prof') := by
+        intro h
+        have := flatIndex_inj _ _ _ hb hb' h
+        exact hpp (rotL_inj j prof' prof (by omega) (by omega) this.symm)
+      rw [List.getD_eq_getElem?_getD, List.getElem?_set_ne hk, ← List.getD_eq_getElem?_getD]
+  · rw [if_neg hji, if_neg (fun h => hji h.1)]
+
+example : ((exGame.pokeItem 1 (rotL 1 [1, 2]) 7).getItem [1, 2]) = [12, 7] ∧
+    ((exGame.pokeItem 1 (rotL 1 [1, 2]) 7).getItem [0, 2]) = exGame.getItem [0, 2] := by decide
+
+/-- **The payoff profile array after `g[prof] = vals`**: entry `(prof', i)` is `vals[i]` at
+    `prof' = prof` and unchanged everywhere else (the freshly computed `payoff_profile_array`
+    shows the write and nothing but the write). -/
+theorem profile_array_after_set (g : Game α) (nums prof prof' : List Nat) (vals : List α) (i : Nat)
+    (hg : g.WF nums) (hp : inBounds nums prof = true) (hp' : inBounds nums prof' = true)
+    (hi : i < nums.length) :
+    (g.setItem prof vals).profileArray.get (prof' ++ [i]) =
+      if prof' = prof then vals.getD i 0 else g.profileArray.get (prof' ++ [i]) := by
+  have hwf := setItem_WF g nums prof vals hg
+  rw [(views_agree _ nums prof' i hwf hp' hi).1, ← (views_agree _ nums prof' i hwf hp' hi).2]
+  by_cases h : prof' = prof
+  · subst h
+    rw [if_pos rfl, set_get g nums prof' vals i hg hp hi]
+  · rw [if_neg h, set_other_unchanged g nums prof prof' vals i hg hp hp' h hi,
+      (views_agree g nums prof' i hg hp' hi).2, ← (views_agree g nums prof' i hg hp' hi).1]
+
+example : (exGame.setItem [1, 2] [7, 8]).profileArray.get ([1, 2] ++ [1]) = 8 ∧
+    (exGame.setItem [1, 2] [7, 8]).profileArray.get ([0, 2] ++ [1]) = exGame.profileArray.get ([0, 2] ++ [1]) := by
+  decide
+
+
+/-! ## T1 domination and best responses agree: a dominated action is never a best response -/
+
+section dom
+variable {K : Type} [Field K] [LinearOrder K] [IsStrictOrderedRing K]
+open Finset
+
+/-- every mixed action in the list is a probability vector over its axis -/
+def probOk : List Nat → List (Act K) → Prop
+  | n :: s, σ :: os =>
+    (match σ with
+      | .pure _ => True
+      | .mixed p => (∀ c, c < n → 0 ≤ p.getD c 0) ∧ ∑ c ∈ range n, p.getD c 0 = 1) ∧ probOk s os
+  | [], [] => True
+  | _, _ => False
+
+theorem mixed_strict_mono (n : Nat) (p : List K) (F G : Nat → K) (tol : K)
+    (hp0 : ∀ c, c < n → 0 ≤ p.getD c 0) (hp1 : ∑ c ∈ range n, p.getD c 0 = 1)
+    (h : ∀ c, c < n → F c + tol < G c) :
+    (List.range n).foldl (fun acc c => acc + F c * p.getD c 0) 0 + tol <
+      (List.range n).foldl (fun acc c => acc + G c * p.getD c 0) 0 := by
+  rw [foldl_eq_finset_sum n (fun c => F c * p.getD c 0), foldl_eq_finset_sum n (fun c => G c * p.getD c 0)]
+  have e : ∑ c ∈ range n, F c * p.getD c 0 + tol = ∑ c ∈ range n, (F c + tol) * p.getD c 0 := by
+    simp only [add_mul, Finset.sum_add_distrib, ← Finset.mul_sum, hp1, mul_one]
+  rw [e]
+  have hpos : ∃ c ∈ range n, 0 < p.getD c 0 := by
+    by_contra hno
+    push Not at hno
+    have : ∑ c ∈ range n, p.getD c 0 = 0 := by
+      apply Finset.sum_eq_zero
+      intro c hc
+      exact le_antisymm (hno c hc) (hp0 c (mem_range.mp hc))
+    rw [this] at hp1
+    exact zero_ne_one hp1
+  apply Finset.sum_lt_sum
+  · intro c hc
+    exact mul_le_mul_of_nonneg_right (le_of_lt (h c (mem_range.mp hc))) (hp0 c (mem_range.mp hc))
+  · obtain ⟨c, hc, hpc⟩ := hpos
+    exact ⟨c, hc, mul_lt_mul_of_pos_right (h c (mem_range.mp hc)) hpc⟩
+
+/-- expectation under independent (pure or probability-vector) play preserves a strict margin -/
+theorem expect_strict_mono (tol : K) : ∀ (s : List Nat) (os : List (Act K)) (f g : List Nat → K),
+    actsOk s os → probOk s os → (∀ r, inBounds s r = true → f r + tol < g r) →
+    expect s os f + tol < expect s os g
+  | [], [], f, g, _, _, h => h [] rfl
+  | [], _ :: _, _, _, h, _, _ => by simp [actsOk] at h
+  | _ :: _, [], _, _, h, _, _ => by simp [actsOk] at h
+  | n :: s, σ :: os, f, g, hok, hpr, h => by
+    simp only [actsOk] at hok
+    simp only [probOk] at hpr
+    have ih : ∀ c, c < n →
+        expect s os (fun r => f (c :: r)) + tol < expect s os (fun r => g (c :: r)) := by
+      intro c hc
+      apply expect_strict_mono tol s os _ _ hok.2 hpr.2
+      intro r hr
+      apply h
+      simp [inBounds, hc, hr]
+    simp only [expect]
+    cases σ with
+    | pure a =>
+      have ha : a < n := by
+        have := hok.1
+        simp only [actOk] at this
+        by_contra hc; simp [hc] at this
+      exact ih a ha
+    | mixed p =>
+      simp only [reduceFn]
+      exact mixed_strict_mono n p _ _ tol hpr.1.1 hpr.1.2 ih
+
+/-- **A dominated action is never a best response.** If own action `b` beats own action `a` by more
+    than `tol` against every pure opponent profile (the pure-domination test of `is_dominated`),
+    then against ANY opponents' actions — pure or mixed probability vectors, any number of
+    opponents — `payoff_vector` puts `b` more than `tol` above `a`, so `a` is not among the best
+    responses with tolerance `tol` (`best_response`, `is_best_response`, hence `is_nash`, agree
+    with `is_dominated`). -/
+theorem dominated_never_best_response (A : Arr K) (n0 : Nat) (s : List Nat) (os : List (Act K))
+    (a b : Nat) (tol : K) (hs : A.shape = n0 :: s) (hsz : A.data.length = prod A.shape)
+    (hok : actsOk s os) (hpr : probOk s os) (ha : a < n0) (hb : b < n0)
+    (hdom : ∀ r, inBounds s r = true → A.get (a :: r) + tol < A.get (b :: r)) :
+    (payoffVector A os).get [a] + tol < (payoffVector A os).get [b] ∧
+    a ∉ bestResponses (payoffVector A os).data tol := by
+  have hlt : (payoffVector A os).get [a] + tol < (payoffVector A os).get [b] := by
+    rw [(payoff_vector_is_expectation A n0 s os a hs hok ha).2,
+      (payoff_vector_is_expectation A n0 s os b hs hok hb).2]
+    exact expect_strict_mono tol s os _ _ hok hpr hdom
+  refine ⟨hlt, ?_⟩
+  obtain ⟨hlen, hd⟩ := payoffVector_data A n0 s os hs hok hsz
+  intro hmem
+  rw [best_response_spec] at hmem
+  have := hmem.2 b (by rw [hlen]; exact hb)
+  rw [hd a ha, hd b hb] at this
+  rw [(payoff_vector_is_expectation A n0 s os a hs hok ha).2,
+    (payoff_vector_is_expectation A n0 s os b hs hok hb).2] at hlt
+  linarith
+
+/-- non-vacuity: in the 3×2 array below action 2 beats action 0 by 2 at both opponent actions, and
+    the uniform mixed opponent action is a probability vector -/
+example : probOk (K := ℚ) [2] [.mixed [1/2, 1/2]] ∧ actsOk (α := ℚ) [2] [.mixed [1/2, 1/2]] := by
+  refine ⟨⟨⟨?_, ?_⟩, trivial⟩, ⟨rfl, trivial⟩⟩
+  · intro c hc
+    have : c = 0 ∨ c = 1 := by omega
+    rcases this with rfl | rfl <;> norm_num
+  · norm_num [Finset.sum_range_succ]
+example : ∀ r, inBounds [2] r = true →
+    (⟨[3, 2], [0, 1, 5, 5, 2, 3]⟩ : Arr ℚ).get (0 :: r) + 1 < (⟨[3, 2], [0, 1, 5, 5, 2, 3]⟩ : Arr ℚ).get (2 :: r) := by
+  intro r hr
+  have hm := List.mem_of_getElem? (allIdx_flatIndex _ _ hr)
+  have : ∃ a, a < 2 ∧ r = [a] := by simpa [allIdx] using hm
+  obtain ⟨c, hc, rfl⟩ := this
+  have : c = 0 ∨ c = 1 := by omega
+  rcases this with rfl | rfl <;> norm_num [Arr.get, flatIndex, prod]
+
+end dom
+
+section domnash
+variable {K : Type} [Field K] [LinearOrder K] [IsStrictOrderedRing K]
+
+/-- **A dominated action is never played in a Nash equilibrium.** If player `i`'s action `b` beats
+    action `a` by more than `tol` against every pure profile of the others, then no profile in which
+    `i` plays `a` — whatever the others do, pure or mixed probability vectors — passes
+    `is_nash(·, tol)`: `is_nash` and the domination test agree, for every number of players. -/
+theorem dominated_not_nash (g : Game K) (nums : List Nat) (prof : List (Act K)) (tol : K) (i a b : Nat)
+    (hg : g.WF nums) (hlen : prof.length = nums.length) (hi : i < nums.length)
+    (hplay : prof[i]? = some (.pure a)) (ha : a < nums.getD i 0) (hb : b < nums.getD i 0)
+    (hok : actsOk (nums.drop (i + 1) ++ nums.take i) (prof.drop (i + 1) ++ prof.take i))
+    (hpr : probOk (nums.drop (i + 1) ++ nums.take i) (prof.drop (i + 1) ++ prof.take i))
+    (hdom : ∀ r, inBounds (nums.drop (i + 1) ++ nums.take i) r = true →
+      (g.player i).get (a :: r) + tol < (g.player i).get (b :: r)) :
+    g.isNash prof tol = false := by
+  have hgN : g.N = nums.length := hg.len
+  have hshape : (g.player i).shape = nums.getD i 0 :: (nums.drop (i + 1) ++ nums.take i) := by
+    rw [hg.shape i hi]; exact rotL_cons i nums 0 hi
+  have ho : Game.oppsOf g.N i prof = prof.drop (i + 1) ++ prof.take i := by
+    have := oppsOf_eq prof i (by omega)
+    rwa [hlen, ← hgN] at this
+  have hJ := dominated_never_best_response (g.player i) _ _ _ a b tol hshape (hg.size i hi) hok hpr ha hb hdom
+  obtain ⟨hlenv, hd⟩ := payoffVector_data (g.player i) _ _ _ hshape hok (hg.size i hi)
+  cases hn : g.isNash prof tol with
+  | false => rfl
+  | true =>
+    exfalso
+    simp only [Game.isNash, List.all_eq_true, List.mem_range] at hn
+    have h1 := hn i (by omega)
+    rw [ho, hplay] at h1
+    have hv : (payoffVector (g.player i) (prof.drop (i + 1) ++ prof.take i)).data ≠ [] := by
+      intro e; rw [e, List.length_nil] at hlenv; omega
+    have h2 := (is_best_response_spec _ _ tol hv).mp h1 b (by rw [hlenv]; exact hb)
+    simp only [ownValue] at h2
+    apply hJ.2
+    rw [best_response_spec]
+    refine ⟨by rw [hlenv]; exact ha, ?_⟩
+    intro c hc
+    have h3 := (is_best_response_spec _ _ tol hv).mp h1 c hc
+    simpa only [ownValue] using h3
+
+/-- prisoner's dilemma: cooperating (0) is dominated by defecting (1) for player 0, and
+    (cooperate, cooperate) is not a Nash equilibrium; the hypotheses above hold there -/
+def pdGame : Game ℚ := ⟨[⟨[2, 2], [3, 0, 5, 1]⟩, ⟨[2, 2], [3, 0, 5, 1]⟩]⟩
+def pdGameZ : Game Int := ⟨[⟨[2, 2], [3, 0, 5, 1]⟩, ⟨[2, 2], [3, 0, 5, 1]⟩]⟩
+
+example : pdGameZ.isNash [.pure 0, .pure 0] 0 = false ∧ pdGameZ.isNash [.pure 1, .pure 1] 0 = true := by decide
+example : pdGame.WF [2, 2] ∧
+    actsOk (α := ℚ) ([2, 2].drop 1 ++ [2, 2].take 0) ([Act.pure 0, Act.pure 0].drop 1 ++ [Act.pure 0, Act.pure 0].take 0) ∧
+    probOk (K := ℚ) ([2, 2].drop 1 ++ [2, 2].take 0) ([Act.pure 0, Act.pure 0].drop 1 ++ [Act.pure 0, Act.pure 0].take 0) ∧
+    ∀ r, inBounds ([2, 2].drop 1 ++ [2, 2].take 0) r = true →
+      (pdGame.player 0).get (0 :: r) + 1/2 < (pdGame.player 0).get (1 :: r) := by
+  refine ⟨⟨rfl, by decide, by decide⟩, ⟨rfl, trivial⟩, ⟨trivial, trivial⟩, ?_⟩
+  intro r hr
+  have hm := List.mem_of_getElem? (allIdx_flatIndex _ _ hr)
+  have : ∃ c, c < 2 ∧ r = [c] := by simpa [allIdx] using hm
+  obtain ⟨c, hc, rfl⟩ := this
+  have : c = 0 ∨ c = 1 := by omega
+  rcases this with rfl | rfl <;> norm_num [pdGame, Game.player, Arr.get, flatIndex, prod]
+
+end domnash
+
+section mixdom
+variable {K : Type} [Field K] [LinearOrder K] [IsStrictOrderedRing K]
+open Finset
+
+omit [LinearOrder K] [IsStrictOrderedRing K] in
+theorem reduceFn_finset_sum (n : Nat) (σ : Act K) (m : Nat) (x : Nat → K) (E : Nat → Nat → K) :
+    reduceFn n σ (fun c => ∑ k ∈ range m, x k * E k c) = ∑ k ∈ range m, x k * reduceFn n σ (E k) := by
+  cases σ with
+  | pure a => rfl
+  | mixed p =>
+    simp only [reduceFn]
+    rw [foldl_eq_finset_sum n (fun c => (∑ k ∈ range m, x k * E k c) * p.getD c 0)]
+    have : ∀ k, (List.range n).foldl (fun acc b => acc + E k b * p.getD b 0) 0
+        = ∑ c ∈ range n, E k c * p.getD c 0 := fun k => foldl_eq_finset_sum n (fun c => E k c * p.getD c 0)
+    simp only [this, Finset.sum_mul, Finset.mul_sum]
+    rw [Finset.sum_comm]
+    apply Finset.sum_congr rfl
+    intro k _
+    apply Finset.sum_congr rfl
+    intro c _
+    ring
+
+omit [LinearOrder K] [IsStrictOrderedRing K] in
+/-- the iterated expectation is linear in the payoff function -/
+theorem expect_finset_sum (m : Nat) (x : Nat → K) : ∀ (s : List Nat) (os : List (Act K))
+    (f : Nat → List Nat → K),
+    expect s os (fun r => ∑ k ∈ range m, x k * f k r) = ∑ k ∈ range m, x k * expect s os (f k)
+  | [], [], _ => rfl
+  | [], _ :: _, _ => rfl
+  | _ :: _, [], _ => rfl
+  | n :: s, σ :: os, f => by
+    simp only [expect]
+    have : (fun c => expect s os (fun r => ∑ k ∈ range m, x k * f k (c :: r)))
+        = fun c => ∑ k ∈ range m, x k * expect s os (fun r => f k (c :: r)) := by
+      funext c
+      exact expect_finset_sum m x s os (fun k r => f k (c :: r))
+    rw [this]
+    exact reduceFn_finset_sum n σ m x (fun k c => expect s os (fun r => f k (c :: r)))
+
+/-- **An action strictly dominated by a mixed action is never a best response.** If the mixture
+    `x` (a probability vector over the own actions) pays more than `a` by more than `tol` against
+    every pure opponent profile — what `is_dominated(a, tol)` certifies — then against ANY opponents'
+    actions (pure or mixed probability vectors, any number of opponents) some own action's entry of
+    `payoff_vector` exceeds `a`'s by more than `tol`; so `a` is not among the best responses with
+    tolerance `tol`. -/
+theorem mixed_dominated_never_best_response (A : Arr K) (n0 : Nat) (s : List Nat) (os : List (Act K))
+    (a : Nat) (x : Nat → K) (tol : K) (hs : A.shape = n0 :: s) (hsz : A.data.length = prod A.shape)
+    (hok : actsOk s os) (hpr : probOk s os) (ha : a < n0)
+    (hx0 : ∀ k, k < n0 → 0 ≤ x k) (hx1 : ∑ k ∈ range n0, x k = 1)
+    (hdom : ∀ r, inBounds s r = true → A.get (a :: r) + tol < ∑ k ∈ range n0, x k * A.get (k :: r)) :
+    (∃ k, k < n0 ∧ (payoffVector A os).get [a] + tol < (payoffVector A os).get [k]) ∧
+    a ∉ bestResponses (payoffVector A os).data tol := by
+  have hE : ∀ k, k < n0 → (payoffVector A os).get [k] = expect s os (fun r => A.get (k :: r)) :=
+    fun k hk => (payoff_vector_is_expectation A n0 s os k hs hok hk).2
+  have hlt := expect_strict_mono tol s os _ _ hok hpr hdom
+  rw [expect_finset_sum n0 x s os (fun k r => A.get (k :: r))] at hlt
+  have hex : ∃ k, k < n0 ∧ (payoffVector A os).get [a] + tol < (payoffVector A os).get [k] := by
+    by_contra hno
+    push Not at hno
+    have hle : ∑ k ∈ range n0, x k * expect s os (fun r => A.get (k :: r))
+        ≤ ∑ k ∈ range n0, x k * (expect s os (fun r => A.get (a :: r)) + tol) := by
+      apply Finset.sum_le_sum
+      intro k hk
+      have hk' := mem_range.mp hk
+      have := hno k hk'
+      rw [hE k hk', hE a ha] at this
+      exact mul_le_mul_of_nonneg_left this (hx0 k hk')
+    rw [← Finset.sum_mul, hx1, one_mul] at hle
+    exact absurd hlt (not_lt.mpr hle)
+  refine ⟨hex, ?_⟩
+  obtain ⟨k, hk, hkl⟩ := hex
+  obtain ⟨hlen, hd⟩ := payoffVector_data A n0 s os hs hok hsz
+  intro hmem
+  rw [best_response_spec] at hmem
+  have := hmem.2 k (by rw [hlen]; exact hk)
+  rw [hd a ha, hd k hk] at this
+  rw [hE k hk, hE a ha] at hkl
+  linarith
+
+/-- non-vacuity: in the 3×2 game with rows (0,0), (3,−1), (−1,3) the half–half mixture of actions 1
+    and 2 beats action 0 by 1 > 1/2 at both opponent actions (no pure action dominates it) -/
+example : ∀ r, inBounds [2] r = true →
+    (⟨[3, 2], [0, 0, 3, -1, -1, 3]⟩ : Arr ℚ).get (0 :: r) + 1/2 <
+      ∑ k ∈ range 3, (if k = 0 then 0 else (1/2 : ℚ)) * (⟨[3, 2], [0, 0, 3, -1, -1, 3]⟩ : Arr ℚ).get (k :: r) := by
+  intro r hr
+  have hm := List.mem_of_getElem? (allIdx_flatIndex _ _ hr)
+  have : ∃ c, c < 2 ∧ r = [c] := by simpa [allIdx] using hm
+  obtain ⟨c, hc, rfl⟩ := this
+  have : c = 0 ∨ c = 1 := by omega
+  rcases this with rfl | rfl <;> norm_num [Finset.sum_range_succ, Arr.get, flatIndex, prod]
+
+end mixdom
 
 end QE.C14
